@@ -910,6 +910,8 @@ class QueryPlanner:
     # method for compatibility
     def from_query(self, query=None):
         self.plan = QueryPlan()
+        # results of common table expressions point into the plan: they do not outlive it
+        self.cte_results = {}
 
         if query is None:
             query = self.query
